@@ -172,6 +172,61 @@ fn kernels_on(ctx: &Ctx, st: &mut Stats, idx: u64, dt: &DataType, col: &[Val], l
             expect_rows(st, idx, "interleave", dt, catch(|| arrow_select::interleave::interleave(&[a.as_ref(), b.as_ref()], &il)), &want, &case);
         }
     }
+    // ---- merge / merge_n / ScalarZipper with the second array
+    if let Ok(b) = realise(dt, other, &Layout::compact()) {
+        let m2 = other.len();
+        // merge: every mask of length n+m2 over {T,F,null} with exactly n trues
+        if n + m2 <= 5 {
+            for m in masks(n + m2) {
+                if m.iter().filter(|x| **x == Some(true)).count() != n {
+                    continue;
+                }
+                let (mut ia, mut ib) = (0, 0);
+                let want: Vec<Val> = m.iter().map(|x| if *x == Some(true) { ia += 1; col[ia - 1].clone() } else { ib += 1; other[ib - 1].clone() }).collect();
+                ev += 1;
+                expect_rows(st, idx, "merge", dt, catch(|| arrow_select::merge::merge(&BooleanArray::from(m.clone()), &a, &b)), &want, &case);
+            }
+        }
+        // merge_n: every index sequence of length <= 3 over {0, 1, hole} that does not exhaust an input
+        let letters: Vec<Option<usize>> = if is_union(dt) { vec![Some(0), Some(1)] } else { vec![Some(0), Some(1), None] };
+        let mut seqs: Vec<Vec<Option<usize>>> = vec![vec![]];
+        let mut level: Vec<Vec<Option<usize>>> = vec![vec![]];
+        for _ in 0..3 {
+            level = level.into_iter().flat_map(|p| letters.iter().map(move |l| { let mut q = p.clone(); q.push(*l); q })).collect();
+            seqs.extend(level.iter().cloned());
+        }
+        for sq in seqs {
+            let (c0, c1) = (sq.iter().filter(|x| **x == Some(0)).count(), sq.iter().filter(|x| **x == Some(1)).count());
+            if c0 > n || c1 > m2 {
+                continue;
+            }
+            let (mut i0, mut i1) = (0, 0);
+            let want: Vec<Val> = sq.iter().map(|x| match x { Some(0) => { i0 += 1; col[i0 - 1].clone() } Some(_) => { i1 += 1; other[i1 - 1].clone() } None => Val::Null }).collect();
+            ev += 1;
+            expect_rows(st, idx, "merge_n", dt, catch(|| arrow_select::merge::merge_n(&[a.as_ref(), b.as_ref()], &sq)), &want, &case);
+        }
+        if n > 0 && m2 > 0 {
+            let (sa, sb) = (Scalar::new(a.slice(0, 1)), Scalar::new(b.slice(m2 - 1, 1)));
+            for len in 0..=3usize {
+                for m in masks(len) {
+                    let want: Vec<Val> = m.iter().map(|x| if *x == Some(true) { col[0].clone() } else { other[m2 - 1].clone() }).collect();
+                    ev += 1;
+                    expect_rows(st, idx, "scalar-zipper", dt, catch(|| arrow_select::zip::ScalarZipper::try_new(&sa, &sb)?.zip(&BooleanArray::from(m.clone()))), &want, &case);
+                    ev += 1;
+                    expect_rows(st, idx, "zip-scalars", dt, catch(|| arrow_select::zip::zip(&BooleanArray::from(m.clone()), &sa, &sb)), &want, &case);
+                }
+            }
+        }
+    }
+    // ---- union_extract: the rows of one branch, null elsewhere
+    if let DataType::Union(fields, _) = dt {
+        for (tid, f) in fields.iter() {
+            let want: Vec<Val> = col.iter().map(|v| match v { Val::Union(t, x) if *t == tid => (**x).clone(), _ => Val::Null }).collect();
+            ev += 1;
+            let r = catch(|| arrow_select::union_extract::union_extract(a.as_any().downcast_ref::<UnionArray>().unwrap(), f.name()));
+            expect_rows(st, idx, "union_extract", f.data_type(), r, &want, &case);
+        }
+    }
     // ---- dictionary garbage collection keeps the rows
     if let DataType::Dictionary(_, _) = dt {
         ev += 1;
